@@ -51,7 +51,7 @@ def main(argv) -> int:
         for op in res["program"]["ops"]:
             print("  ", runner._brief(op))
         return 0 if res["status"] == "ok" else 1
-    quick = {"C04": 60.0, "C05": 50.0, "C09": 50.0, "C12": 55.0, "C19": 45.0}
+    quick = {"C04": 60.0, "C05": 50.0, "C09": 60.0, "C12": 55.0, "C19": 45.0}
     budget = args.budget if args.budget is not None else (quick.get(args.target, 40.0) if args.tier == "quick" else 900.0)
     batch = runner.Batch((args.target,), args.tier, args.seed, args.jobs, budget, max_runs=args.runs)
     return batch.run()
